@@ -67,6 +67,7 @@ type taskSpec struct {
 	deps  []dep  // ground truth: sorted set of (task, activation) this one depends on
 	trig  int    // -1, or the task whose result makes this task appear
 	group int    // -1, or k: task lives in root.g<k> (static tasks only)
+	fills int    // the runner delivers its result in this many incremental Fill calls (1..3)
 }
 
 type wfSpec struct {
@@ -196,6 +197,30 @@ func (w *wfSpec) result(i int) map[string]any {
 		m["spawn"] = ls
 	}
 	return m
+}
+
+// fillParts splits the result of task i into the pieces its runner passes to
+// successive Task.Fill calls (the result is the unification of all of them):
+// `out` first, then `res`, then `spawn`, merged down to w.tasks[i].fills calls.
+func (w *wfSpec) fillParts(i int) []map[string]any {
+	full := w.result(i)
+	n := w.tasks[i].fills
+	if n <= 1 {
+		return []map[string]any{full}
+	}
+	parts := []map[string]any{{"out": full["out"]}, {"res": full["res"]}}
+	if sp, ok := full["spawn"]; ok {
+		parts = append(parts, map[string]any{"spawn": sp})
+	}
+	for len(parts) > n {
+		// merge the last two pieces
+		last := parts[len(parts)-1]
+		for k, v := range last {
+			parts[len(parts)-2][k] = v
+		}
+		parts = parts[:len(parts)-1]
+	}
+	return parts
 }
 
 // seenPath is where, inside the value of task i, the result of dependency j
@@ -501,8 +526,10 @@ func runFlow(w *wfSpec, src string, sch scheduler) (res runResult) {
 				}
 				return errInjected
 			}
-			if err := t.Fill(w.result(id)); err != nil {
-				return err
+			for _, part := range w.fillParts(id) {
+				if err := t.Fill(part); err != nil {
+					return err
+				}
 			}
 			return nil
 		}), nil
@@ -978,6 +1005,13 @@ func genWF(r *common.Rng, kind string) *wfSpec {
 	if kind != "late" && kind != "latecyclic" {
 		w.randomGroups(r)
 	}
+	// how many Fill calls each runner uses to deliver its result
+	for i := range w.tasks {
+		w.tasks[i].fills = 1
+		if r.Chance(1, 2) {
+			w.tasks[i].fills = 2 + r.Intn(2)
+		}
+	}
 	w.finish()
 	return w
 }
@@ -1296,6 +1330,7 @@ func main() {
 			if t.trig >= 0 {
 				stats["late_tasks"]++
 			}
+			stats[fmt.Sprintf("tasks_with_%d_fills", len(w.fillParts(t.id)))]++
 		}
 	}
 
